@@ -524,6 +524,9 @@ impl St {
                     for c in 0..ncols {
                         if cols[c].len() != ents.len() { diff.push("get_slice-len"); }
                         if <A as ArchX>::col_borrow_slice(x, c) != cols[c] { diff.push("borrow_slice"); }
+                        let (gm, bm) = <A as ArchX>::col_mut_lens(x, c);
+                        if gm != ents.len() { diff.push("get_slice_mut-len"); }
+                        if bm != ents.len() { diff.push("borrow_slice_mut-len"); }
                     }
                     let same = |o: &Vec<(EntityAny, Row)>| o.len() == rows.len() && o.iter().zip(rows.iter()).all(|(p, q)| p.0 == q.0 && p.1 == q.1);
                     if !same(&<A as ArchX>::rows_iter(x)) { diff.push("iter"); }
